@@ -33,7 +33,7 @@ use redis_sim::redis::{Command, CommandExecutor, RespCodec, RespValue, Value};
 use serde_json::json;
 use tokio::io::{AsyncReadExt, AsyncWriteExt, DuplexStream};
 
-const KEYS: [&str; 6] = ["k", "n", "l", "w", "ab", "x"];
+pub(crate) const KEYS: [&str; 6] = ["k", "n", "l", "w", "ab", "x"];
 /// never written: target of the no-op fillers that keep the second connection in lock step
 const FILLER_KEY: &str = "zz";
 
@@ -49,7 +49,7 @@ pub enum Rv {
 }
 
 impl Rv {
-    fn from_resp(v: &RespValue) -> Rv {
+    pub(crate) fn from_resp(v: &RespValue) -> Rv {
         match v {
             RespValue::SimpleString(s) => Rv::Simple(s.to_string()),
             RespValue::Error(s) => Rv::Err(s.to_string()),
@@ -60,6 +60,9 @@ impl Rv {
     }
     fn is_err(&self) -> bool {
         matches!(self, Rv::Err(_))
+    }
+    pub(crate) fn is_err_pub(&self) -> bool {
+        self.is_err()
     }
 }
 
@@ -89,7 +92,7 @@ fn err_class(t: &str, perr: bool) -> String {
     }
 }
 
-fn show(v: &Rv, perr: bool) -> String {
+pub(crate) fn show(v: &Rv, perr: bool) -> String {
     match v {
         Rv::Simple(s) => format!("+{}", s),
         Rv::Err(t) => err_class(t, perr),
@@ -149,7 +152,7 @@ fn parse_reply(b: &[u8]) -> Option<(Rv, usize)> {
 // ---------------------------------------------------------------- commands
 
 #[derive(Clone, Debug, PartialEq, Eq)]
-enum Cmd {
+pub(crate) enum Cmd {
     Get(String),
     Set(String, Vec<u8>),
     Incr(String),
@@ -184,7 +187,7 @@ enum Cmd {
     Local(u8),
 }
 
-fn b(s: &str) -> Vec<u8> {
+pub(crate) fn b(s: &str) -> Vec<u8> {
     s.as_bytes().to_vec()
 }
 
@@ -200,7 +203,7 @@ fn kb(k: &str) -> Vec<u8> {
 }
 
 impl Cmd {
-    fn args(&self) -> Vec<Vec<u8>> {
+    pub(crate) fn args(&self) -> Vec<Vec<u8>> {
         match self {
             Cmd::Get(k) => vec![b("GET"), kb(k)],
             Cmd::Set(k, v) => vec![b("SET"), kb(k), v.clone()],
@@ -252,7 +255,7 @@ impl Cmd {
             Cmd::Local(_) => vec![b("PUBLISH"), b("c"), b("m")],
         }
     }
-    fn line(&self) -> String {
+    pub(crate) fn line(&self) -> String {
         let hk = |k: &String| hex(k.as_bytes());
         match self {
             Cmd::Get(k) => format!("GET {}", hk(k)),
@@ -325,7 +328,7 @@ impl Cmd {
             _ => None,
         }
     }
-    fn text(&self) -> String {
+    pub(crate) fn text(&self) -> String {
         self.args().iter().map(|a| String::from_utf8_lossy(a).to_string()).collect::<Vec<_>>().join(" ")
     }
 }
@@ -1320,7 +1323,7 @@ const FIELDS: [&str; 3] = ["f", "g", "ab"];
 const MEMBERS: [&str; 3] = ["alice", "bob", "c"];
 const SCORES: [i64; 5] = [10, 15, 20, 25, -5];
 
-fn gen_cmd(rng: &mut Rng, writes_only: bool) -> Cmd {
+pub(crate) fn gen_cmd(rng: &mut Rng, writes_only: bool) -> Cmd {
     let k = key(rng);
     // fan-out commands (one message per shard involved) and a TTL-only write
     if rng.chance(1, 9) {
@@ -2192,7 +2195,7 @@ fn audit_corpus() -> Vec<(&'static str, usize, Option<ConnectionConfig>, Option<
 
 // ---------------------------------------------------------------- part B: executor level
 
-fn to_command(args: &[Vec<u8>]) -> Command {
+pub(crate) fn to_command(args: &[Vec<u8>]) -> Command {
     let mut buf = BytesMut::from(&frame(args)[..]);
     let v = RespCodec::parse(&mut buf).expect("resp").expect("complete");
     Command::from_resp_zero_copy(&v).expect("command")
@@ -2525,6 +2528,13 @@ pub fn run(a: &Args) {
     for (script, expect) in xcorpus() {
         xsession(&mut out, &mut Rng::new(0xC05), Some(script), expect, None);
     }
+    // the source-derived coverage tables, the other front ends, the variant sweeps
+    crate::c05x::source_scan(&mut out);
+    crate::c05x::simulated_connection(&mut out);
+    crate::c05x::connection_level_sweep(&mut out);
+    crate::c05x::executor_variant_sweep(&mut out, &mut Rng::new(0xC05));
+    crate::c05x::shared_executor(&mut out, &mut rng.fork(), a.n / 8);
+    crate::c05x::replicated_frontend(&mut out, &mut rng.fork(), (a.n / 40).min(2000));
     // audit corpus: faults, capacity, alphabet, configuration, histories
     let rt = tokio::runtime::Builder::new_current_thread().enable_all().build().unwrap();
     rt.block_on(async {
